@@ -243,7 +243,11 @@ class Gen:
             return name
         if p < 0.55:
             # @string rule
-            body = self.expr_choice(2, dict(refs=self.ref_pool(('char', 'string', 'unit')), nofields=True, fieldnames=[]))
+            if r.random() < 0.2:
+                # the fields of a @string rule are discarded, but they are legal (and may have several types: fix F9)
+                body = self.fix_char_enum(self.expr_choice(2, dict(refs=self.ref_pool(('char', 'string', 'unit')), fieldnames=r.sample(FIELD_NAMES, 2))))
+            else:
+                body = self.expr_choice(2, dict(refs=self.ref_pool(('char', 'string', 'unit')), nofields=True, fieldnames=[]))
             if self.nullable(body) and r.random() < 0.8:
                 body = self.non_nullable_body(body)
             ds = ['string'] + [d for d in self.flags('string') if d != 'export']
